@@ -181,6 +181,25 @@ def run(ctx):
               f"{gv.qualname} / SIB / new position registered under the returned id", ctx.where(gv), "vertices[new id] = position, only when unknown",
               "a new position is not registered under the id that is returned")
 
+    # interning identifies corners by their ROUNDED position, so two different Voronoi corners (the split halves of a nearly
+    # four-fold point, less than 1e-3 apart) can get one number: the segment between them must not become a mesh edge
+    ctx.clause("the mesh is consistent: no mesh edge joins a vertex to itself (two corners that round to the same point)")
+    enum_calls = [e for e in s.calls() if e.target == f"{TE}.get_enum" and e.args and e.args[0][0] == "seq" and len(e.args[0][1]) == 2]
+    if not enum_calls:
+        raise AnalysisError("create_lattice_elements: registration of a ridge segment through get_enum([a, b], ...) not found - re-bind the anchor")
+    for e in enum_calls:
+        n1, n2 = e.args[0][1]
+        accepted = {T.cmp("NotEq", n1, n2), T.b_not(T.cmp("Eq", n1, n2)), T.cmp("NotEq", n2, n1), T.b_not(T.cmp("Eq", n2, n1))}
+        for a_, b_ in ((n1, n2),):
+            if a_[0] == "call" and b_[0] == "call" and a_[1] == b_[1] == f"{TE}.get_vertex_number" and a_[2][1:] == b_[2][1:]:
+                p1, p2 = a_[2][0], b_[2][0]
+                accepted |= {T.cmp("NotEq", p1, p2), T.b_not(T.cmp("Eq", p1, p2)), T.cmp("NotEq", p2, p1), T.b_not(T.cmp("Eq", p2, p1))}
+        ctx.check(bool(accepted & set(e.conds())), "GUARD", f"{cle.qualname} / GUARD / a segment becomes an edge only between two different vertex numbers",
+                  ctx.where(cle, e.node), "dominated by `vertex_number_1 != vertex_number_2`",
+                  "get_enum([a, b]) is reached without a != b: corners are numbered by their position rounded to three decimals, so two Voronoi corners "
+                  "closer than 1e-3 (the two halves of a nearly four-fold point of a slightly irregular grid) get the same number and the segment between "
+                  "them is registered as an edge from a vertex to itself - SmallEdge rejects it with an AssertionError and no lattice is built")
+
     ctx.clause("neighbouring regions share the mesh edge of their common ridge; reversed use is encoded by a negative id")
     ge = repo.func(f"{TE}.get_enum")
     ctx.touch(ge)
@@ -277,6 +296,7 @@ def run(ctx):
 
 _P = "forsys/tessellation.py"
 PINNED = [
+    ("F18 reintroduced: zero-length segments registered as edges", _P, "                    if vertex_number_1 == vertex_number_2:\n                        # two corners that round to the same point: no edge of zero length\n                        continue\n", ""),
     ("over-size regions removed while iterating", _P, "            if np.max(matrix) > max_distance:\n                to_delete.append(c)\n    for c in to_delete:\n        regions.remove(c)", "            if np.max(matrix) > max_distance:\n                regions.remove(c)"),
     ("triangular regions get no cell", _P, "        if len(c) != 0 and -1 not in c:\n            # add first to close the cell_vertices", "        if len(c) > 3 and -1 not in c:\n            # add first to close the cell_vertices"),
     ("cut-off compares the mean distance", _P, "            if np.max(matrix) > max_distance:", "            if np.mean(matrix) > max_distance:"),
@@ -299,5 +319,8 @@ PINNED = [
     ("vertex registered under a different id", _P, "        vertices[vertex_number] = vertex\n", "        vertices[vertex_number + 1] = vertex\n"),
 ]
 PRESERVING = [
+    ("zero-length guard nested instead of `continue`", _P, "                    if vertex_number_1 == vertex_number_2:\n                        # two corners that round to the same point: no edge of zero length\n                        continue\n\n                    enum = get_enum([vertex_number_1, vertex_number_2], new_edges)\n\n                    temp_big_edge.append(enum)\n                    temp_for_cell.append(enum)\n                    temp_vertex_for_cell.append(vertex_number_1)\n                    temp_vertex_for_cell.append(vertex_number_2)\n",
+     "                    if vertex_number_1 != vertex_number_2:\n                        enum = get_enum([vertex_number_1, vertex_number_2], new_edges)\n                        temp_big_edge.append(enum)\n                        temp_for_cell.append(enum)\n                        temp_vertex_for_cell.append(vertex_number_1)\n                        temp_vertex_for_cell.append(vertex_number_2)\n"),
+    ("zero-length guard on the rounded positions", _P, "                    if vertex_number_1 == vertex_number_2:", "                    if v0 == v1:"),
     ("sign test spelled the other way", _P, "which = 0 if eid > 0 else -1", "which = -1 if eid <= 0 else 0"),
 ]
